@@ -32,8 +32,10 @@ def run(cmd, cwd=None, env=None, timeout=1800):
 
 
 def main():
-    prop, label, patch, demo = sys.argv[1:5]
-    notes = sys.argv[5] if len(sys.argv) > 5 else None
+    benign = '--benign' in sys.argv
+    argv = [a for a in sys.argv[1:] if a != '--benign']
+    prop, label, patch, demo = argv[0:4]
+    notes = argv[4] if len(argv) > 4 else None
     sid = f"{prop}-{label}"
     wt = Path(tempfile.mkdtemp(prefix=f"vs_{sid}_", dir='/tmp'))
     shutil.rmtree(wt)
@@ -84,16 +86,21 @@ def main():
                               'error': [l for l in out.splitlines() if 'ANALYSIS-ERROR' in l][:2]}
         meta['detected_by'] = fired
         meta['detected'] = any(v['rc'] == 1 for v in fired.values())
-        good = (rc0 == 0 and rc1 != 0 and meta['steps']['apply_rc'] == 0 and meta['steps']['compile_rc'] == 0 and not missing)
+        if benign:
+            good = (rc0 == 0 and rc1 == 0 and meta['steps']['apply_rc'] == 0 and meta['steps']['compile_rc'] == 0 and not missing)
+            meta['false_alarm'] = bool(fired)
+        else:
+            good = (rc0 == 0 and rc1 != 0 and meta['steps']['apply_rc'] == 0 and meta['steps']['compile_rc'] == 0 and not missing)
         meta['confirmed'] = bool(good)
         if good:
-            dst = VERIF / 'seeded' / sid
+            dst = (VERIF / 'seeded' / 'benign' / sid) if benign else (VERIF / 'seeded' / sid)
             dst.mkdir(parents=True, exist_ok=True)
             shutil.copy(patch, dst / 'patch.diff')
             shutil.copy(demo, dst / 'demo.py')
             note_text = open(notes).read() if notes and os.path.exists(notes) else ''
             json.dump({
                 'id': sid, 'property': prop,
+                'kind': 'behaviour-preserving refactoring: every check must stay silent' if benign else 'seeded defect: the property check must fire',
                 'needs_to_manifest': note_text,
                 'what_was_run': {
                     'demo_on_unmodified_tree_exit': rc0, 'demo_on_modified_tree_exit': rc1,
